@@ -638,7 +638,28 @@ pub fn gen_scn(rng: &mut Rng, thorough: bool, o: &mut Out) -> Scn {
         mask_tail(&mut r);
         rows.push(r);
     }
-    let orig: Vec<Vec<u8>> = (0..n).map(|_| rng.bytes(bs)).collect();
+    let mut orig: Vec<Vec<u8>> = (0..n).map(|_| rng.bytes(bs)).collect();
+    // structured contents in a third of the scenarios: zero blocks, erased-looking (0xFF) blocks, repeated blocks,
+    // blocks that begin with FF FF FF FF
+    if rng.chance(1, 3) {
+        let style = rng.below(5);
+        o.stat(&format!("payload-{}", ["zero-blocks", "ff-blocks", "repeated-blocks", "ff-prefix", "mixed"][style as usize]));
+        for _ in 0..rng.range(1, (n as u64 / 2).max(1)) {
+            let i = rng.below(n as u64) as usize;
+            let j = rng.below(n as u64) as usize;
+            match if style == 4 { rng.below(4) } else { style } {
+                0 => orig[i].fill(0),
+                1 => orig[i].fill(0xFF),
+                2 => orig[i] = orig[j].clone(),
+                _ => {
+                    let m = bs.min(4);
+                    orig[i][..m].fill(0xFF);
+                }
+            }
+        }
+    } else {
+        o.stat("payload-random");
+    }
     Scn { n, bs, vb, cap, rows, orig }
 }
 
